@@ -783,6 +783,19 @@ static rfbCursor myCursor =
 };
 #endif
 
+/* Every screen gets its own copy of the built-in cursor: the library caches in the cursor object a
+ * rich form derived for the pixel format of the screen that uses it (rfbMakeRichCursorFromXCursor),
+ * which must not be seen by a screen with another pixel format. */
+static rfbCursorPtr rfbCopyOfDefaultCursor(void)
+{
+   rfbCursorPtr c = (rfbCursorPtr)malloc(sizeof(rfbCursor));
+   if (!c)
+      return &myCursor;
+   *c = myCursor;
+   c->cleanup = TRUE;   /* freed by rfbSetCursor / rfbScreenCleanup; source and mask stay static */
+   return c;
+}
+
 static rfbCursorPtr rfbDefaultGetCursorPtr(rfbClientPtr cl)
 {
    return(cl->screen->cursor);
@@ -1028,7 +1041,7 @@ rfbScreenInfoPtr rfbGetScreen(int* argc,char** argv,
    screen->cursorX=screen->cursorY=screen->underCursorBufferLen=0;
    screen->underCursorBuffer=NULL;
    screen->dontConvertRichCursorToXCursor = FALSE;
-   screen->cursor = &myCursor;
+   screen->cursor = rfbCopyOfDefaultCursor();
    INIT_MUTEX(screen->cursorMutex);
 
 #if defined(LIBVNCSERVER_HAVE_LIBPTHREAD) || defined(LIBVNCSERVER_HAVE_WIN32THREADS)
